@@ -153,7 +153,6 @@ def content_type_witnesses(rep):
     """real build: a content type keeps its meaning (type, subtype, suffix and every parameter) from the request header to the typed input
     and from the typed output to the response header.  Not solver-decided: the text is handled by the mime crate."""
     import re
-    import authfam as A  # noqa: F401
     t0 = time.time()
     scs = [{"config": {}, "request": {"method": "PUT", "uri": "/bkt/key", "headers": [["host", "localhost"], ["content-type", m], ["content-length", "1"]],
                                       "body": "78"}} for m in MIMES]
